@@ -284,6 +284,26 @@ class Interp(Engine):
 
     def ev_IfExp(self, n, fr):
         c = self.truth(self.ev(n.test, fr))
+        if getattr(self, "pure_mode", 0) and not self.spec_mode and isinstance(c, Sym):
+            # element of a comprehension over a symbolic sequence: both arms are
+            # evaluated, each under its guard (obligations raised inside are guarded)
+            def arm(node, guard):
+                k0 = len(self.pc)
+                self.pc.append(guard)
+                try:
+                    val = self.ev(node, fr)
+                finally:
+                    new = self.pc[k0 + 1 :]
+                    del self.pc[k0:]
+                    self.pc.extend(z3.Implies(guard, h) for h in new)
+                return val
+
+            a, b = arm(n.body, c.z), arm(n.orelse, z3.Not(c.z))
+            ka, kb = kind_of(a), kind_of(b)
+            if ka is None or kb is None:
+                raise Unsupported("conditional over non-scalars inside a symbolic comprehension")
+            k = ka if ka == kb else ("real" if "real" in (ka, kb) else "int")
+            return Sym(z3.If(c.z, to_z3(a, k), to_z3(b, k)), k)
         if self.spec_mode and isinstance(c, Sym):
             a, b = self.ev(n.body, fr), self.ev(n.orelse, fr)
             ka, kb = kind_of(a), kind_of(b)
@@ -322,8 +342,10 @@ class Interp(Engine):
 
     def ev_Subscript(self, n, fr):
         base = self.ev(n.value, fr)
-        if isinstance(base, type) or (not isinstance(base, (Obj, PList, PDict, SArr, NArr, Sym, Opaque, DictListRef, tuple, str, list, dict)) and hasattr(base, "__class_getitem__")):
-            return base  # generic alias such as dict[int, list[int]] -> the class itself
+        mine = (Obj, PList, PDict, SArr, NArr, Sym, Opaque, DictListRef, tuple, str, list, dict, range)
+        if not isinstance(base, mine) and not hasattr(base, "__pyvc_getitem__"):
+            if isinstance(base, type) or type(base).__module__ in ("typing", "types", "numpy._typing", "numpy.typing", "collections.abc") or hasattr(base, "__class_getitem__") or type(base).__name__ in ("TypeAliasType", "_GenericAlias", "GenericAlias"):
+                return base  # generic alias such as dict[int, list[int]] or npt.NDArray[np.bool_]
         return self.models.getitem(self, base, self.ev(n.slice, fr))
 
     def ev_JoinedStr(self, n, fr):
